@@ -173,7 +173,14 @@ def phase_c(rep, tier, seed):
     cases = []
     for i in range(sz["roundtrips"]):
         s = core.run_seed(seed, "c14-roundtrip", i)
-        cases.append(histsim.roundtrip_case(core.stream(s, "case"), s))
+        c = histsim.roundtrip_case(core.stream(s, "case"), s)
+        if i % 4 == 1:
+            # stratum: a scale option together with an unnormalised flux option - the pair
+            # (flag, already-scaled value) must survive the round trip exactly once
+            c["options"]["psi_divide_twopi"] = True
+            c["options"].pop("reverse_current", None)
+            c["explicit_psi"] = ["psi_sol"] if i % 8 == 1 else ["psi_core", "psi_sol"]
+        cases.append(c)
     res = batch.map_chunks(_rt_job, cases, limit_s=1800)
     status = collections.Counter()
     kinds = set()
